@@ -85,6 +85,7 @@ def unit_edits(unit):
             yield "W13 unnamed field without value", edited(path, lambda par_, i, n: n.attrs.pop("name"))
             if t in ("char", "short", "three", "int", "byte"):
                 yield "W7 length on non-string", edited(path, lambda par_, i, n: n.attrs.__setitem__("length", "2"))
+                yield "W7 referenced length on non-string", edited(path, lambda par_, i, n: (par_.kids.insert(i, length("zq3", "char")), n.attrs.__setitem__("length", "zq3")))
                 for bad in BAD_INT_LITERALS:
                     yield f"W14 named literal of wrong type ({bad!r})", edited(path, lambda par_, i, n, bad=bad: setattr(n, "text", bad))
                 yield "W3 override on integer", edited(path, lambda par_, i, n: n.attrs.__setitem__("type", t + ":short" if t != "short" else "char:int"))
@@ -249,6 +250,8 @@ def tree_edits(program):
         yield f"W1 prelude enum E1 redefined as struct in {other}", with_extra(other, [struct("E1", [field("q", "char")])]), None
         yield f"W4 enum with non-integer value in {other}", with_extra(other, [enum("Bad1", "char", [("A", "x")]), struct("UseBad1", [field("b", "Bad1")])]), None
         yield f"W4 enum with duplicate ordinal in {other}", with_extra(other, [enum("Bad2", "char", [("A", 1), ("B", 1)]), struct("UseBad2", [field("b", "Bad2")])]), None
+        yield f"W4 enum with a duplicate ordinal spelled differently in {other}", with_extra(other, [enum("Bad8", "char", [("A", "1"), ("B", "01")]), struct("UseBad8", [field("b", "Bad8")])]), None
+        yield f"W4 enum with a duplicate ordinal spelled with zeros in {other}", with_extra(other, [enum("Bad9", "short", [("A", "0"), ("B", "7"), ("C", "007")]), struct("UseBad9", [field("b", "Bad9")])]), None
         yield f"W4 enum with duplicate value name in {other}", with_extra(other, [enum("Bad3", "char", [("A", 1), ("A", 2)]), struct("UseBad3", [field("b", "Bad3")])]), None
         yield f"W4 enum with string underlying type in {other}", with_extra(other, [enum("Bad4", "string", [("A", 1)]), struct("UseBad4", [field("b", "Bad4")])]), None
         yield f"W4 enum with itself as underlying type in {other}", with_extra(other, [enum("Bad5", "Bad5", [("A", 1)]), struct("UseBad5", [field("b", "Bad5")])]), None
